@@ -86,6 +86,18 @@ def gen_tasks(tier, seed):
                           "kwargs": {"k": 2, "weight_type": "int", "subset_constraints": cs, "subset_constraints_coverage": cov}})
             tasks.append({**base, "kind": "cover", "cls": "kPathCoverCycles", "edges": es, "constraints": cs, "coverage": cov,
                           "kwargs": {"k": 2, "subset_constraints": cs, "subset_constraints_coverage": cov}})
+        # slack model with subset constraints; a constraint with coverage < 1 that lists an ignored edge must not force that edge
+        for cov in (1.0, 0.5):
+            tasks.append({**base, "kind": "mpe", "cls": "kMinPathErrorCycles", "edges": arb, "constraints": cs, "coverage": cov,
+                          "kwargs": {"k": 2, "weight_type": "int", "subset_constraints": cs, "subset_constraints_coverage": cov}})
+        for e_ign in (es if tier != "quick" else rng.sample(es, min(3, len(es)))):
+            others = [e for e in es if e != e_ign]
+            if not others:
+                continue
+            cs_i = [[list(e_ign), list(rng.choice(others))]]
+            for cls, kind in (("kMinPathErrorCycles", "mpe"), ("kLeastAbsErrorsCycles", "lae")):
+                tasks.append({**base, "kind": kind, "cls": cls, "edges": arb, "constraints": cs_i, "coverage": 0.5, "ignored": [list(e_ign)],
+                              "kwargs": {"k": 1, "weight_type": "int", "subset_constraints": cs_i, "subset_constraints_coverage": 0.5, "elements_to_ignore": [list(e_ign)]}})
     tasks = [t for t in tasks if t["kind"] in ("cover", "fd") or any(e[2] for e in t["edges"] if (e[0], e[1]) not in {tuple(x) for x in t["ignored"]})]
     for i, t in enumerate(tasks):
         t["tid"] = i
